@@ -26,5 +26,5 @@ def plan(tier):
     R = 2 if tier == "quick" else 3
     return [Scenario("api-step", step, params={"R": R},
                      cover=["refused", "notified"] + ["step-%d" % i for i in range(7)],
-                     bounds={"regions": "0..%d" % R, "requests/events": "1 (inductive step)",
+                     nra_mode="oneshot", bounds={"regions": "0..%d" % R, "requests/events": "1 (inductive step)",
                              "geometry": "unbounded reals"})]
